@@ -19,6 +19,26 @@ CLAIMED = {
             "Lean 4 theorems (rlencodeChunked_eq, indexPixels_spec, writePixels_concat, create_valid) + raw-HDF5 monitor evaluating the Lean schema predicate on every collection written by seeded histories of producing operations",
             "Proof: the chunked run-length encoder equals the unchunked one for every block size; offsets built from runs equal the run-length index for every non-decreasing column; a validated chunk stream yields a store satisfying every schema clause. The predicate the theorem concludes is evaluated on raw dumps of all files written by create/unordered/merge/coarsen/zoomify/scool/CLI loaders.",
             "Trusted: Lean kernel; model of rlencode/index_pixels/write_pixels tied by unit correspondences (exhaustive small arrays, all block sizes, >10^6-pixel creation in thorough); h5py raw reads."),
+    "C01": ("DESIGN.md §5 C01",
+            "Lean 4 theorems (pixels_roundtrip, matrix_roundtrip_symm/_square, arrayLoader_spec, sortByKey_strict) composing the proved write path (C02) and read path (C03) + differential round trips over input forms, dtypes, extra columns, HDF5 filter options and metadata documents",
+            "Proof: the stored table is the concatenation of the chunks for every chunking; the full-matrix query of the created store is the stored matrix (square) / exactly the symmetric completion without duplicates (symmetric-upper); the array loader's stream equals the upper triangle for every chunk size; a frame with distinct keys is stored as its strictly sorted permutation. Real create_cooler/pixels()/matrix()/info are compared with the Lean definitions.",
+            "Trusted: Lean kernel; hand-written model tied by correspondence; HDF5 filters/dtype conversion, pandas sort, simplejson round trip are primitives. Known finding D16 (assembly JSON-decoded) is matched narrowly."),
+    "C06": ("DESIGN.md §5 C06",
+            "Lean 4 theorems (unordered_eq_aggregate, passes_irrelevant, split/chunk order irrelevance via the groupSum extensionality principle) + differential correspondence over chunkings, orders, merge buffers, max-merge fan-ins; first-pass groups observed through the log and checked by contract",
+            "Proof: one pass or two passes over any valid grouping of the chunks store exactly the per-pixel sum of all records; independent of split, chunk order and pre-sorting. Real create_cooler(ordered=False) and `cooler load` are compared with the Lean aggregate; temp directory observed.",
+            "Trusted: Lean kernel; model tied by correspondence; tempfile lifetime observed not proved; linspace edges are a free unit checked by contract."),
+    "C07": ("DESIGN.md §5 C07",
+            "Lean 4 theorems (merger_eq_spec for every valid epoch partition, merge_comm, merge_assoc, merge_sum, buffer independence) + exhaustive-mergebuf differential correspondence with merge_coolers, refusal and dtype-limit cases",
+            "Proof: for strictly sorted inputs and ANY valid partition the streaming k-way merger yields exactly the per-pixel aggregate in storage order; the aggregate is commutative, associative and preserves totals. Real merge_coolers is run for every mergebuf 1..sum(nnz)+1 and input order and compared with Lean mergeSpec; incompatible inputs must be refused; overflowing aggregates must err.",
+            "Trusted: Lean kernel; model tied by correspondence; pandas groupby/concat primitives; merge_breakpoints is a free unit checked by contract; non-sum aggregations checked by correspondence only."),
+    "C11": ("DESIGN.md §5 C11",
+            "Lean 4 theorems (spans_cover_once, partition_cover_once, marginal_split over any commutative monoid and any permutation of chunk results, balance_data_only) + differential runs of the real split-apply-combine pipeline and balance_cooler under every chunk size and many map implementations",
+            "Proof: the spans the code builds cover every stored pixel exactly once for every chunk size; any additive per-chunk functional folded in any completion order equals its value on the whole table. The real pipeline is run bit-exactly on integer data under sequential, lazy, pool and adversarially permuted maps with a visit log; full balance runs are compared across schedules.",
+            "Trusted: Lean kernel; model tied by correspondence; real process scheduling observed for <=4 workers; float non-associativity bounded (1e-9), not modelled."),
+    "C19": ("DESIGN.md §5 C19",
+            "Lean 4 theorems (humanized_exact, strict_parses, parse_format_id, region_refuses, uri_slash, parseRegion_sound) about a character-level model of the tokenizer and parsers + exhaustive differential sweep over all short strings",
+            "Proof: well-formed numerals and regions parse to exactly what they denote (exact decimal scaling), format-then-parse is the identity for every good name and s<=e, each malformed class is refused, URIs split alike however the slash is written. The Lean scanner is compared with the real regex-based parser on every string up to length 6-7 over two alphabets.",
+            "Trusted: Lean kernel; model tied by correspondence; ASCII input; Python re/Decimal/int primitives."),
 }
 
 NOT_YET = {}
